@@ -38,6 +38,33 @@ impl Mode {
     }
 }
 
+/// How the batch is named on the command line. Everything but `Explicit` goes through the
+/// real path discovery code (walkdir / glob / --files-from) on a scratch tree of placeholders.
+#[derive(Serialize, Deserialize, Clone, Copy, Debug, PartialEq, Eq, Default)]
+#[serde(rename_all = "snake_case")]
+pub enum PathForm {
+    /// one argument per file
+    #[default]
+    Explicit,
+    /// `path_args` are directories that contain exactly the batch
+    Directory,
+    /// `path_args` are glob patterns that match exactly the batch
+    Glob,
+    /// `--files-from files.lst`, whose lines are `path_args` (files, directories or globs)
+    FilesFrom,
+}
+
+impl PathForm {
+    pub fn name(self) -> &'static str {
+        match self {
+            PathForm::Explicit => "explicit",
+            PathForm::Directory => "directory",
+            PathForm::Glob => "glob",
+            PathForm::FilesFrom => "files_from",
+        }
+    }
+}
+
 #[derive(Serialize, Deserialize, Clone, Debug, PartialEq, Eq)]
 pub struct Case {
     pub property: String,
@@ -64,9 +91,14 @@ pub struct Case {
     pub faults: Vec<Fault>,
     #[serde(default)]
     pub chunking: Vec<Chunking>,
-    /// extra argv (e.g. `--cursor 1,2`)
+    /// extra argv (e.g. `--cursor=1,2`)
     #[serde(default)]
     pub extra_args: Vec<String>,
+    #[serde(default)]
+    pub path_form: PathForm,
+    /// directories / patterns / list lines, depending on `path_form`
+    #[serde(default)]
+    pub path_args: Vec<String>,
 }
 
 #[derive(Serialize, Deserialize, Clone, Debug, PartialEq, Eq)]
@@ -302,8 +334,23 @@ impl Case {
         if self.mode.is_stdin() {
             sc.stdin = self.files.first().map(|f| f.bytes.clone()).unwrap_or_default();
         } else {
-            for f in &self.files {
-                sc.argv.push(f.path.clone());
+            match self.path_form {
+                PathForm::Explicit => {
+                    for f in &self.files {
+                        sc.argv.push(f.path.clone());
+                    }
+                }
+                PathForm::Directory | PathForm::Glob => {
+                    sc.argv.extend(self.path_args.iter().cloned());
+                    sc.real_tree = true;
+                }
+                PathForm::FilesFrom => {
+                    sc.argv.extend(["--files-from".into(), "files.lst".into()]);
+                    let mut list = self.path_args.join("\n");
+                    list.push('\n');
+                    sc.real_files = vec![("files.lst".to_string(), list)];
+                    sc.real_tree = true;
+                }
             }
             sc.files = self.files.clone();
         }
@@ -407,25 +454,25 @@ impl Case {
     // ------------------------------------------------------------------------------ C16
 
     fn evaluate_c16(&self, stats: &mut Stats) -> Verdict {
-        if self.files.len() != 1 {
-            return Verdict::HarnessError("C16 cases have exactly one file".into());
+        if self.files.is_empty() || (self.mode.is_stdin() && self.files.len() != 1) {
+            return Verdict::HarnessError("C16 cases have one file (stdin modes) or a batch".into());
         }
-        let f = &self.files[0];
-        let original = &f.bytes;
-        // (a) the reference: the same content formatted from standard input, no faults
-        let ref_sc = self.stdin_reference(0);
-        let ra = self.run(&ref_sc, stats);
-        if let Some(m) = harness_failure(&ra) {
-            if ra.exit == Exit::Timeout {
-                return Verdict::Discarded("reference run stalled (pure formatter)".into());
+        // (a) the reference, per file: the same content formatted from standard input, no faults
+        let mut refs: Vec<RunResult> = vec![];
+        for i in 0..self.files.len() {
+            let ref_sc = self.stdin_reference(i);
+            let ra = self.run(&ref_sc, stats);
+            if let Some(m) = harness_failure(&ra) {
+                if ra.exit == Exit::Timeout {
+                    return Verdict::Discarded("reference run stalled (pure formatter)".into());
+                }
+                return Verdict::HarnessError(m);
             }
-            return Verdict::HarnessError(m);
+            if abnormal(&ra) || ra.exit == Exit::Budget {
+                return Verdict::Discarded(format!("reference run aborted: {:?}", ra.exit));
+            }
+            refs.push(ra);
         }
-        if abnormal(&ra) || ra.exit == Exit::Budget {
-            return Verdict::Discarded(format!("reference run aborted: {:?}", ra.exit));
-        }
-        let decodable = !exit_nonzero(&ra);
-        let reference = &ra.stdout;
 
         let sc = self.to_scenario();
         let r = self.run(&sc, stats);
@@ -437,142 +484,186 @@ impl Case {
         if r.exit == Exit::Budget {
             return Verdict::Judged(out);
         }
-
-        let target_in = if self.mode.is_stdin() { STDIN } else { f.path.as_str() };
-        let read_failed = r.read_failed.iter().any(|(p, _)| p == target_in) || (f.exists && !f.readable) || !f.exists;
-        let write_failed = r
-            .fired
-            .iter()
-            .any(|x| !x.kind.is_benign() && is_write_side(x.op));
-        let final_bytes = r.final_bytes(&sc, &f.path).map(|b| b.to_vec());
-        let file_mutated = !r.mutations.is_empty() || (!self.mode.is_stdin() && f.exists && final_bytes.as_deref() != Some(&original[..]));
-        if read_failed {
-            stats.probe("c16_read_side_failure_judged");
-        }
-        if !decodable {
-            stats.probe("c16_undecodable_content_judged");
+        if self.files.len() > 1 {
+            stats.probe("c16_multi_file_batch_judged");
         }
 
-        match self.mode {
-            Mode::Files => {
-                if read_failed || !decodable {
-                    if !exit_nonzero(&r) {
+        let mut any_must_fail = false;
+        let mut any_write_fault = false;
+        let mut all_formatted = true;
+        let mut expected_blocks: Vec<Vec<u8>> = vec![];
+        let mut blocks_judgeable = true;
+        for (i, f) in self.files.iter().enumerate() {
+            let original = &f.bytes;
+            let reference = &refs[i].stdout;
+            let decodable = !exit_nonzero(&refs[i]);
+            let target_in = if self.mode.is_stdin() { STDIN } else { f.path.as_str() };
+            let target_out = if self.mode.is_stdin() { STDOUT } else { f.path.as_str() };
+            let read_failed = r.read_failed.iter().any(|(p, _)| p == target_in)
+                || (f.exists && !f.readable)
+                || !f.exists;
+            let write_failed = r
+                .fired
+                .iter()
+                .any(|x| !x.kind.is_benign() && is_write_side(x.op) && (x.target == target_out || x.target == STDOUT));
+            let final_bytes = r.final_bytes(&sc, &f.path).map(|b| b.to_vec());
+            let mutated = r.mutations.iter().any(|m| m.path == f.path)
+                || (!self.mode.is_stdin() && f.exists && final_bytes.as_deref() != Some(&original[..]));
+            let must_fail = read_failed || !decodable;
+            any_must_fail |= must_fail;
+            any_write_fault |= write_failed;
+            if read_failed {
+                stats.probe("c16_read_side_failure_judged");
+            }
+            if !decodable {
+                stats.probe("c16_undecodable_content_judged");
+            }
+            if self.mode != Mode::Files && mutated {
+                out.push(Finding {
+                    oracle: "c16.readonly_mode_modified_file".into(),
+                    detail: format!(
+                        "mode {} modified {}: {:?}",
+                        self.mode.name(),
+                        f.path,
+                        r.mutations.iter().find(|m| m.path == f.path)
+                    ),
+                });
+            }
+            if must_fail {
+                if self.mode == Mode::Files && mutated {
+                    out.push(Finding {
+                        oracle: "c16.unreadable_file_modified".into(),
+                        detail: format!(
+                            "{} could not be read/decoded but was modified: {:?}",
+                            f.path,
+                            r.mutations.iter().find(|m| m.path == f.path)
+                        ),
+                    });
+                }
+                continue;
+            }
+            if original != reference {
+                all_formatted = false;
+            }
+            if write_failed {
+                stats.probe("c16_write_side_failure_unconstrained");
+                blocks_judgeable = false;
+                continue;
+            }
+            match self.mode {
+                Mode::Files => {
+                    let got = final_bytes.unwrap_or_default();
+                    if &got != reference {
                         out.push(Finding {
-                            oracle: "c16.unreadable_exit_zero".into(),
-                            detail: format!("file could not be read/decoded but exit status is {:?}", r.exit),
+                            oracle: "c16.files_ne_stdin".into(),
+                            detail: format!("{}: {}", f.path, summarize_diff(&got, reference)),
                         });
                     }
-                    if file_mutated {
-                        out.push(Finding {
-                            oracle: "c16.unreadable_file_modified".into(),
-                            detail: format!("file that could not be read/decoded was modified: {:?}", r.mutations.first()),
-                        });
+                    if reference.len() < original.len() {
+                        stats.probe("c16_result_shorter_than_original");
+                    } else if reference.len() > original.len() {
+                        stats.probe("c16_result_longer_than_original");
+                    } else {
+                        stats.probe("c16_result_same_length");
                     }
-                } else if write_failed {
-                    stats.probe("c16_write_side_failure_unconstrained");
-                } else {
+                    if !r.mutations.iter().any(|m| m.path == f.path) {
+                        stats.probe("c16_write_skipped_already_formatted");
+                    }
+                }
+                Mode::Stdout => {
+                    // the block is the formatted *text* as UTF-8 (documented in the code);
+                    // judged only when the reference decodes under the reference codec
+                    let rf = codec::ref_read(self.configured_encoding(), reference);
+                    match rf.text {
+                        Ok(text) => expected_blocks.push(format!("{}:\n{}\n", f.path, text).into_bytes()),
+                        Err(()) => blocks_judgeable = false,
+                    }
+                }
+                _ => {}
+            }
+        }
+
+        // exit status and streams, over the whole invocation
+        if any_must_fail {
+            if !exit_nonzero(&r) {
+                out.push(Finding {
+                    oracle: "c16.unreadable_exit_zero".into(),
+                    detail: format!(
+                        "an input could not be read/decoded but exit status is {:?} in mode {}",
+                        r.exit,
+                        self.mode.name()
+                    ),
+                });
+            }
+        } else if any_write_fault {
+            // content and exit status after a write-side failure are C18's subject
+        } else {
+            match self.mode {
+                Mode::Files => {
                     if exit_nonzero(&r) {
                         out.push(Finding {
                             oracle: "c16.files_mode_failed".into(),
-                            detail: format!("files mode failed ({:?}) although the same content formats from stdin; log: {:?}", r.exit, r.logs.first()),
+                            detail: format!(
+                                "files mode failed ({:?}) although the same content formats from stdin; log: {:?}",
+                                r.exit,
+                                r.logs.iter().find(|l| l.0 == "ERROR")
+                            ),
                         });
+                    }
+                }
+                Mode::Check | Mode::StdinCheck => {
+                    if all_formatted {
+                        stats.probe("c16_check_on_formatted_content");
                     } else {
-                        let got = final_bytes.unwrap_or_default();
-                        if &got != reference {
-                            out.push(Finding {
-                                oracle: "c16.files_ne_stdin".into(),
-                                detail: summarize_diff(&got, reference),
-                            });
-                        }
-                        if reference.len() < original.len() {
-                            stats.probe("c16_result_shorter_than_original");
-                        } else if reference.len() > original.len() {
-                            stats.probe("c16_result_longer_than_original");
-                        } else {
-                            stats.probe("c16_result_same_length");
-                        }
-                        if r.mutations.is_empty() {
-                            stats.probe("c16_write_skipped_already_formatted");
-                        }
+                        stats.probe("c16_check_on_unformatted_content");
+                    }
+                    if all_formatted == exit_nonzero(&r) {
+                        out.push(Finding {
+                            oracle: "c16.check_exit_mismatch".into(),
+                            detail: format!(
+                                "content {} the stdin result but check exit is {:?}",
+                                if all_formatted { "equals" } else { "differs from" },
+                                r.exit
+                            ),
+                        });
+                    }
+                }
+                Mode::Stdout => {
+                    if exit_nonzero(&r) {
+                        out.push(Finding {
+                            oracle: "c16.stdout_mode_failed".into(),
+                            detail: format!("stdout mode failed: {:?} {:?}", r.exit, r.logs.iter().find(|l| l.0 == "ERROR")),
+                        });
+                    }
+                }
+                Mode::StdinStdout => {
+                    if self.knobs.stdout_tty {
+                        stats.probe("c16_stdout_is_terminal_unasserted");
+                    } else if exit_nonzero(&r) {
+                        out.push(Finding {
+                            oracle: "c16.stdin_mode_failed_under_benign_faults".into(),
+                            detail: format!("{:?} {:?}", r.exit, r.logs.first()),
+                        });
+                    } else if r.stdout != refs[0].stdout {
+                        out.push(Finding {
+                            oracle: "c16.stdin_result_changed_by_benign_faults".into(),
+                            detail: summarize_diff(&r.stdout, &refs[0].stdout),
+                        });
                     }
                 }
             }
-            Mode::Check | Mode::StdinCheck | Mode::Stdout | Mode::StdinStdout => {
-                if file_mutated {
-                    out.push(Finding {
-                        oracle: "c16.readonly_mode_modified_file".into(),
-                        detail: format!("mode {} modified a file: {:?}", self.mode.name(), r.mutations.first()),
-                    });
-                }
-                if read_failed || !decodable {
-                    if !exit_nonzero(&r) {
-                        out.push(Finding {
-                            oracle: "c16.unreadable_exit_zero".into(),
-                            detail: format!("input could not be read/decoded but exit status is {:?} in mode {}", r.exit, self.mode.name()),
-                        });
-                    }
-                } else if write_failed {
-                    stats.probe("c16_write_side_failure_unconstrained");
-                } else {
-                    match self.mode {
-                        Mode::Check | Mode::StdinCheck => {
-                            let formatted = original == reference;
-                            if formatted {
-                                stats.probe("c16_check_on_formatted_content");
-                            } else {
-                                stats.probe("c16_check_on_unformatted_content");
-                            }
-                            if formatted == exit_nonzero(&r) {
-                                out.push(Finding {
-                                    oracle: "c16.check_exit_mismatch".into(),
-                                    detail: format!(
-                                        "content {} the stdin result but check exit is {:?}",
-                                        if formatted { "equals" } else { "differs from" },
-                                        r.exit
-                                    ),
-                                });
-                            }
-                        }
-                        Mode::Stdout => {
-                            if exit_nonzero(&r) {
-                                out.push(Finding {
-                                    oracle: "c16.stdout_mode_failed".into(),
-                                    detail: format!("stdout mode failed: {:?} {:?}", r.exit, r.logs.first()),
-                                });
-                            } else {
-                                // the block is the formatted *text* as UTF-8 (documented in the
-                                // code); judged only when the reference decodes under the
-                                // reference codec
-                                let rf = codec::ref_read(self.configured_encoding(), reference);
-                                if let Ok(text) = rf.text {
-                                    let want = format!("{}:\n{}\n", f.path, text);
-                                    if r.stdout != want.as_bytes() {
-                                        out.push(Finding {
-                                            oracle: "c16.stdout_mode_text_ne_stdin".into(),
-                                            detail: summarize_diff(&r.stdout, want.as_bytes()),
-                                        });
-                                    }
-                                }
-                            }
-                        }
-                        Mode::StdinStdout => {
-                            if self.knobs.stdout_tty {
-                                stats.probe("c16_stdout_is_terminal_unasserted");
-                            } else if exit_nonzero(&r) {
-                                out.push(Finding {
-                                    oracle: "c16.stdin_mode_failed_under_benign_faults".into(),
-                                    detail: format!("{:?} {:?}", r.exit, r.logs.first()),
-                                });
-                            } else if &r.stdout != reference {
-                                out.push(Finding {
-                                    oracle: "c16.stdin_result_changed_by_benign_faults".into(),
-                                    detail: summarize_diff(&r.stdout, reference),
-                                });
-                            }
-                        }
-                        Mode::Files => unreachable!(),
-                    }
-                }
+        }
+        if self.mode == Mode::Stdout && blocks_judgeable {
+            let blocks: Vec<&[u8]> = expected_blocks.iter().map(|b| &b[..]).collect();
+            if !blocks_are_permutation(&r.stdout, &blocks, false) {
+                out.push(Finding {
+                    oracle: "c16.stdout_mode_text_ne_stdin".into(),
+                    detail: format!(
+                        "stdout ({} bytes) is not the concatenation of the {} expected `path:` blocks",
+                        r.stdout.len(),
+                        blocks.len()
+                    ),
+                });
             }
         }
         Verdict::Judged(out)
